@@ -18,19 +18,19 @@ TECH = "deterministic simulation: seeded search over plans (scheduled episode ev
 
 CHECKS = {
     "C01": dict(
-        oracle="per-operation refinement of step/reset against RefMDP∘RefStack; counter-restart history oracle; 256-reset freshness count",
+        oracle="per-operation refinement of step/reset against RefMDP∘RefStack; counter-restart history oracle; 256-reset freshness count; Gymnasium/Gymnax adapters against call-logging peers and twins (boundary seeds, non-default Gymnax parameters, repeated auto-resets over a continuous initial distribution)",
         text="Seeded operation sequences on wrapper-stack programs over drawn finite MDPs; every returned (state, observation, reward, flags) is refined against a reference interpreter from the input state, incl. fresh state with restarted clocks/counters on done. Exploration.",
         note="Trusted: SimMDP tables; successor of a done step matched existentially; built-in environments are covered by the rollout scenario (C02) only for space membership.",
         ref="5 (C01)",
     ),
     "C11": dict(
-        oracle="bit-identity of trained leaves across repeats, keys, fresh interpreters (PYTHONHASHSEED varied), observer sets and host-fault schedules",
+        oracle="bit-identity of trained leaves across repeats, keys, fresh interpreters (PYTHONHASHSEED varied, whole library imported first, another configuration trained first in the parent), observer sets and host-fault schedules; constructor purity of all built-in environments (configuration digests)",
         text="The simulator's own determinism obligation turned on lerax: the real learn() of all five algorithms is repeated in-process and in fresh interpreters, with every observer set (incl. video through a simulated executor whose interleaving the seed decides, injected back-end failures, simulated clock) and compared bit for bit with the observer-free run; the input policy must be untouched and another key must change the result. Exploration over configurations and fault schedules.",
         note="Budgets <= 4 iterations, <= 3 envs; XLA's scheduling of host callbacks is outside the simulator's control.",
         ref="5 (C11)",
     ),
     "C12": dict(
-        oracle="non-interference under node-perturbation faults (bit-identical other nodes), vmapped-vs-single collection equality, eager/vmap/jit mode equality",
+        oracle="non-interference under node-perturbation faults (bit-identical other nodes), vmapped-vs-single collection equality, eager/vmap/jit mode equality incl. heterogeneous vmap batches and the stack as constructed vs passed through jit, no row of a batching view mixes environments",
         text="Fault injection on one parallel environment node of the real vectorised on-/off-policy iteration with bit-for-bit comparison of all other nodes; the vmapped collect_rollout call compared with N single-environment calls from the same keys and start states; the same step executed eagerly, vmapped and jitted. Exploration.",
         note="First sentence decided on states reached by simulated runs of SimMDP wrapper stacks (built-in environments: rollout scenario).",
         ref="5 (C12)",
@@ -38,19 +38,19 @@ CHECKS = {
     "C16": dict(
         oracle="safety invariant at the environment seam (poison state) plus shadow queries in key-less / keyed / epsilon-greedy modes along simulated episodes",
         text="Masks are offered by the simulated environment and change with its state; at every step the table policies and the real MLP actor-critic / Q policies are queried in all modes; no masked action may be returned or executed, key-less = mode of the reported masked law, keyed log-prob matches, epsilon bound as a count. Exploration.",
-        note="Invariants over simulated interactions; the all-masks x all-parameters identity is not claimed. Hoeffding slack 1e-12 over 4096 keys.",
+        note="Invariants over simulated interactions; the all-masks x all-parameters identity is not claimed. Hoeffding slack 1e-12 over 4096 keys; joint-frequency probe (2048 keys per context) for 'samples from the law it reports'; laws built from logits and from probabilities; MLP heads of non-default depth.",
         ref="5 (C16)",
     ),
     "C13": dict(
         oracle="twin refinement of wrapped vs inner environment through RefStack (declared change only), TimeLimit history oracle, construction/space/pass-through checks, adapter peer-history equality",
         text="All 11 documented wrappers in random stacks (depth 0..4) over drawn finite MDPs: functional components and step/reset compared with the inner environment under the declared change only; exact TimeLimit; every documented wrapper constructible. Exploration.",
-        note="Rescale wrappers only over bounded boxes with dyadic bounds; adapters are checked by the peers scenario.",
+        note="Rescale wrappers only over bounded boxes with dyadic bounds; one-sided declared action boxes under ClipAction; level-by-level check that a wrapper which declares no change advertises the space of what it wraps; adapters are checked by the peers scenario.",
         ref="5 (C13)",
     ),
     "C02": dict(
         oracle="invariants after every step of adversarially driven auto-reset rollouts of the built-in environments; replay digests for Python-state independence",
-        text="Every built-in environment (classic control with both solvers, all MuJoCo environments, the three G1 tasks) and wrapper stacks over them are rolled out for hundreds of steps under a seeded adversary (random, corner holds, corner alternation); membership of every observation in the declared space, dtypes, finiteness and flag types are checked at every step. Exploration.",
-        note="Bounded horizon (30..900 steps per rollout, 8 rollouts per class in the quick tier); cold compile of MuJoCo/G1 dominates the quick run (~3 min).",
+        text="Every built-in environment (classic control with both solvers, all MuJoCo environments, the three G1 tasks) and wrapper stacks over them are rolled out for hundreds of steps under a seeded adversary (random, corner holds, corner alternation, one-step look-ahead towards the bounds, balance-and-cruise controller for CartPole); membership of every observation in the declared space, dtypes, finiteness and flag types are checked at every step. Exploration.",
+        note="Bounded horizon (30..900 steps per rollout, 8 rollouts per class in the quick tier); cold compile of MuJoCo/G1 dominates the quick run (~3 min). Also: constructor-option sweep of the MuJoCo environments (abstract evaluation), ActionSpy seam for the action that reaches the environment, constructor purity (no Python-side state shared between environment objects).",
         ref="5 (C02)",
     ),
     "C03": dict(
@@ -80,23 +80,23 @@ CHECKS = {
     "C09": dict(
         oracle="exactly-once delivery of tagged samples read back from the trained parameters after the real train(); API-level bijection/partition checks",
         text="Every collected sample carries a unique tag in every field; after the real PPO/A2C/REINFORCE update with SGD the number of visits of each sample is recovered from its own value-table entry, alignment from penalties and logged statistics. Exploration over (num_envs, num_steps, num_batches, num_epochs, keys).",
-        note="Trusted: optax.sgd, the halving construction (lr = B/(2*vf)); N <= 64, E <= 4.",
+        note="Trusted: optax.sgd, the halving construction (lr = B/(2*vf)) and the step recorder (entropy head: counter parameter + per-sample bit tables) from which the composition of every gradient step is decoded; N <= 64, E <= 4.",
         ref="5 (C09)",
     ),
     "C07": dict(
         oracle="RefTD: targets recovered from Q-table deltas (DQN) and logged q_loss / critic deltas (SAC) under scheduled termination/time-out events",
         text="System-level reading: the running learner's reaction to the kind of episode end the simulator schedules is compared with the reference TD rule after every real iteration (tabular Q, SGD, full-buffer batches). Seeded exploration.",
-        note="Trusted: optax.sgd, table critics, deterministic update law of the simulated SAC policy. The formula is decided on batches produced by simulated histories, not on all batches.",
+        note="Trusted: optax.sgd, table critics, deterministic update law of the simulated SAC policy; Q-values and critic depend on the policy state, termination and successor are the simulator's ground truth, SAC runs continue from a non-initial temperature, DQN.train is also called directly. The formula is decided on batches produced by simulated histories, not on all batches.",
         ref="5 (C07)",
     ),
     "C10": dict(
-        oracle="RefSchedule over iteration histories (counter, DQN hard-copy schedule, SAC Polyak and actor/alpha gating) plus learn() record counts",
+        oracle="RefSchedule over iteration histories (counter, DQN hard-copy schedule, SAC Polyak and actor/alpha gating) plus learn() record counts and a spy callback that reports counter, online and target networks from inside learn()",
         text="Iteration-by-iteration drive of the real DQN/SAC with snapshots after every iteration; exact comparisons for copies, tolerance for Polyak. Seeded exploration over intervals, tau, policy_frequency, autotune.",
         note="Any single residue class is accepted for SAC's actor gating (the statement does not fix the phase).",
         ref="5 (C10)",
     ),
     "C18": dict(
-        oracle="save/load operation sequences over a simulated disk with crash points (torn write, ENOSPC, pre-existing files) against a content model",
+        oracle="save/load operation sequences over a simulated disk with crash points (torn write, ENOSPC, failing open, pre-existing files) against a content model; a save that returns normally is taken at its word; behaviour compared under jit and eagerly",
         text="Seeded sequences of save/load under many path spellings for all three policy classes and all supported space kinds, with file-system faults between and inside operations; round trips must be bit-identical in leaves and behaviour, shape mismatches and torn/short/foreign files must raise. Exploration with fault injection.",
         note="Real temp directory as the disk; no bit flips (no checksums promised); EACCES not injectable as root.",
         ref="5 (C18)",
